@@ -358,6 +358,40 @@ def run(ctx, rep):
                 rep.ob('R13.o', KEY, '%s is part %d of the key' % (fname, i), ok, ag[0][1], None if ok else
                        'to_string_key writes `%s` as part %d of the key but the deserializer fills it from `%s`: over HTTP/JSON the metrics are attributed to another topic / partition' % (fname, i, fields.get(fname)))
 
+    rep.rule('R13.q', 'hand-written JSON adapters of the scalar wrapper types write and read the same unit: the serializer emits as_micros / as_bytes_u64 as u64 and the visitor rebuilds the value from the same unit (frozen operation table per impl)', floor=10, analysis='A6 operation tables')
+    ADAPTERS = {
+        '<iggy::utils::duration::IggyDuration as Serialize>::serialize': ['IggyDuration::as_micros', 'Serializer::serialize_u64'],
+        '<iggy::utils::duration::IggyDuration as Deserialize>::deserialize': ['Deserializer::deserialize_u64'],
+        '<iggy::utils::duration::IggyDurationVisitor as de::Visitor>::visit_u64': ['Duration::from_micros', 'IggyDuration::new'],
+        '<iggy::utils::expiry::IggyExpiry as Serialize>::serialize': ['IggyDuration::as_micros', 'Serializer::serialize_u64'],
+        '<iggy::utils::expiry::IggyExpiry as Deserialize>::deserialize': ['Deserializer::deserialize_u64'],
+        '<iggy::utils::expiry::IggyExpiryVisitor as de::Visitor>::visit_u64': ['::from'],
+        '<iggy::utils::timestamp::IggyTimestamp as Serialize>::serialize': ['IggyTimestamp::as_micros', 'Serializer::serialize_u64'],
+        '<iggy::utils::timestamp::IggyTimestamp as Deserialize>::deserialize': ['Deserializer::deserialize_u64'],
+        '<iggy::utils::timestamp::IggyTimestampVisitor as de::Visitor>::visit_u64': ['::from'],
+        '<iggy::utils::topic_size::MaxTopicSize as Serialize>::serialize': ['IggyByteSize::as_bytes_u64', 'Serializer::serialize_u64'],
+        '<iggy::utils::topic_size::MaxTopicSize as Deserialize>::deserialize': ['Deserializer::deserialize_u64'],
+        '<iggy::utils::topic_size::MaxTopicSizeVisitor as de::Visitor>::visit_u64': ['::from'],
+        '<iggy::compression::compression_algorithm::CompressionAlgorithm as Serialize>::serialize': ['Serializer::serialize_str'],
+        '<iggy::compression::compression_algorithm::CompressionAlgorithm as Deserialize>::deserialize': ['Deserializer::deserialize_str'],
+    }
+    byname = {}
+    for f in ctx.facts.body_defs():
+        if '::{' in f or not f.startswith('<iggy::'):
+            continue
+        k = re.sub(r'iggy::args::_::_serde::', '', f)
+        if k in ADAPTERS:
+            byname[k] = f
+    for k, want in sorted(ADAPTERS.items()):
+        f = byname.get(k)
+        if f is None:
+            rep.ob('R13.q', k, 'adapter exists', False, None, 'hand-written serde impl %s is gone' % k)
+            continue
+        ops = sorted({short(c.name) for d_ in ctx.facts.body_defs() if d_ == f or d_.startswith(f + '::{closure') for c in ctx.body(d_).calls
+                      if is_user_call(c) and (not c.name.startswith(('serde', '<serde', 'std::', 'core::', '<std', '<core', 'alloc', '<alloc')) or 'Duration::from_' in c.name)})
+        ok = ops == sorted(want)
+        rep.ob('R13.q', k, 'operations', ok, None, ' '.join(ops) if ok else 'the adapter now uses %s (confirmed: %s): the unit written to JSON and the unit read back may differ' % (ops, sorted(want)))
+
     from props.c05 import journalled_decoders_do_not_validate
     journalled_decoders_do_not_validate(ctx, rep, 'R13.p')
 
